@@ -3,6 +3,11 @@ C07 — property theorems (statements only; helper lemmas live in `Proofs/C07.le
 All definitions are those of `Model/C07.lean`, which the driver runs.
 -/
 import Mahotas.Proofs.C07
+import Mahotas.Proofs.C07Order
+import Mahotas.Proofs.C07Erode
+import Mathlib.Algebra.Order.Field.Basic
+import Mathlib.Algebra.Order.Field.Rat
+import Mathlib.Data.Rat.Cast.Order
 open Mahotas Mahotas.C07
 
 /-- **C07-T1 (rank filter = element of the sorted samples).** For every border mode, image of any
@@ -129,4 +134,198 @@ example :
 example : rankAt .ignore { shape := [2, 2], data := #[7, 1, 5, 3] }
     (footprint [3, 3] #[0, 1, 0, 1, 1, 1, 0, 1, 0]) 2 [0, 0] = some 5 := by
   rw [C07_rank_eq_spec _ _ (by decide)]
+  decide
+
+/-! ## Round 2: the median rank, monotonicity in the rank, extremes, mean between the extremes -/
+
+/-- **C07-R1 (the rank `median_filter` passes is the middle one).** For a neighbourhood `Bc` whose
+entries are 0 or 1 (one entry per position of its shape) the rank `Bc.sum() // 2` computed by
+`median_filter` is `⌊n/2⌋`, `n` = the number of members of the neighbourhood as the filter iterator
+counts them (`N2`): the middle sample for odd `n`, the upper of the two middle samples for even `n`;
+it lies in `[0, n)` as soon as the neighbourhood has a member, so `rank_filter` accepts it. -/
+theorem C07_median_rank_is_middle (bshape : List Nat) (bc : Array Int) (hsz : bc.size = shapeSize bshape)
+    (h01 : ∀ x ∈ bc.toList, x = 0 ∨ x = 1) :
+    medianRank bc = (((footprint bshape bc).length / 2 : Nat) : Int) ∧
+    (0 < (footprint bshape bc).length →
+      0 ≤ medianRank bc ∧ medianRank bc < ((footprint bshape bc).length : Int)) := by
+  have h : medianRank bc = (((footprint bshape bc).length / 2 : Nat) : Int) := by
+    unfold medianRank
+    rw [foldl_add_01 _ h01, footprint_length bshape bc hsz]
+    omega
+  exact ⟨h, fun hpos => by rw [h]; omega⟩
+
+/-- **C07-R1' (rank `⌊n/2⌋` is the upper median).** Among `n ≥ 1` samples the value of rank `⌊n/2⌋`
+has at most `⌊n/2⌋` samples strictly below it and at most `⌊(n−1)/2⌋` strictly above it (for odd `n`
+both bounds are `(n−1)/2`: the median; for even `n` it is the upper of the two middle values).
+Extends `C07_median_balanced` to even counts. -/
+theorem C07_median_is_upper_median (xs : List Int) (v : Int) (h : IsKthSmallest xs (xs.length / 2) v) :
+    xs.countP (fun x => decide (x < v)) ≤ xs.length / 2 ∧
+    xs.countP (fun x => decide (v < x)) ≤ (xs.length - 1) / 2 := by
+  refine ⟨h.2.1, ?_⟩
+  have hsplit := List.length_eq_countP_add_countP (fun x => decide (x ≤ v)) (l := xs)
+  have heq : xs.countP (fun x => decide (v < x)) = xs.countP (fun a => ¬ (decide (a ≤ v)) = true) := by
+    congr 1; funext x; simp
+  have := h.2.2
+  omega
+
+/-- **C07-R2 (monotone in the rank).** At every pixel, in every border mode (including `ignore`, where
+the rank is rescaled to `⌊n·rank/N2⌋`), the output of `rank_filter` for a rank `r` is not larger than
+its output for any rank `r' ≥ r` (in particular `r' = r + 1`), whenever both are defined. -/
+theorem C07_rank_monotone (m : Mode) (f : Img Int) (fp : List (List Int)) (r r' : Int) (p : List Int)
+    (a b : Int) (hr : r ≤ r') (ha : rankAt m f fp r p = some a) (hb : rankAt m f fp r' p = some b) :
+    a ≤ b := by
+  unfold rankAt at ha hb
+  split at ha
+  · cases ha
+  split at hb
+  · cases hb
+  exact nthElement_mono _ _ _ a b (curRank_mono _ _ _ _ (by omega)) ha hb
+
+/-- **C07-R3 (extreme ranks).** When at least one sample is selected at pixel `p`, rank 0 yields the
+minimum of the samples the border rule selects (a sample that is ≤ every sample — the flat grey
+erosion over the neighbourhood) and the last rank `N2 − 1` yields their maximum (the flat grey
+dilation over the reflected neighbourhood), in every mode; in `ignore` mode with `n < N2` samples the
+last rank rescales to `⌊n(N2−1)/N2⌋ = n − 1`, still the last of the sorted samples. -/
+theorem C07_rank_extremes (m : Mode) (f : Img Int) (hs : ∀ d ∈ f.shape, 0 < d) (fp : List (List Int))
+    (p : List Int) (hne : specSamples m f fp p ≠ []) :
+    (∃ lo, rankAt m f fp 0 p = some lo ∧ lo ∈ specSamples m f fp p ∧
+      ∀ x ∈ specSamples m f fp p, lo ≤ x) ∧
+    (∃ hi, rankAt m f fp ((fp.length : Int) - 1) p = some hi ∧ hi ∈ specSamples m f fp p ∧
+      ∀ x ∈ specSamples m f fp p, x ≤ hi) := by
+  have hn : 0 < (specSamples m f fp p).length := List.length_pos_iff.2 hne
+  have hle : (specSamples m f fp p).length ≤ fp.length := by
+    rw [← gather_eq_specSamples m f hs]; exact gather_length_le m f fp p
+  constructor
+  · obtain ⟨v, hv, _⟩ := nthElement_isKth (specSamples m f fp p) 0 hn
+    refine ⟨v, ?_, nthElement_mem _ _ _ hv, nthElement_zero_le _ _ hv⟩
+    unfold rankAt
+    rw [if_neg (by omega), gather_eq_specSamples m f hs]
+    simp only [Int.toNat_zero, curRank_zero]
+    exact hv
+  · obtain ⟨v, hv, _⟩ := nthElement_isKth (specSamples m f fp p) ((specSamples m f fp p).length - 1) (by omega)
+    refine ⟨v, ?_, nthElement_mem _ _ _ hv, nthElement_last_ge _ _ hv⟩
+    unfold rankAt
+    rw [if_neg (by omega), gather_eq_specSamples m f hs]
+    have h1 : ((fp.length : Int) - 1).toNat = fp.length - 1 := by omega
+    simp only [h1, curRank_last _ _ hn hle]
+    exact hv
+
+/-- **C07-R4 (the mean lies between the extreme ranks).** Wherever `rank_filter` defines a value `lo`
+for rank 0 and a value `hi` for the last rank, `mean_filter` has `n ≥ 1` samples and its exact
+quotient `sum / n` (which the code rounds once to double) satisfies `lo ≤ sum/n ≤ hi`; in integers,
+`lo·n ≤ sum ≤ hi·n`. -/
+theorem C07_mean_between_min_max (m : Mode) (f : Img Int) (fp : List (List Int)) (p : List Int)
+    (lo hi : Int) (hlo : rankAt m f fp 0 p = some lo)
+    (hhi : rankAt m f fp ((fp.length : Int) - 1) p = some hi) :
+    0 < (meanParts m f fp p).2 ∧
+    lo * ((meanParts m f fp p).2 : Int) ≤ (meanParts m f fp p).1 ∧
+    (meanParts m f fp p).1 ≤ hi * ((meanParts m f fp p).2 : Int) ∧
+    (lo : ℚ) ≤ ((meanParts m f fp p).1 : ℚ) / ((meanParts m f fp p).2 : ℚ) ∧
+    ((meanParts m f fp p).1 : ℚ) / ((meanParts m f fp p).2 : ℚ) ≤ (hi : ℚ) := by
+  unfold rankAt at hlo hhi
+  split at hlo
+  · cases hlo
+  split at hhi
+  · cases hhi
+  simp only [Int.toNat_zero, curRank_zero] at hlo
+  have hn : 0 < (gather m f fp p).length := nthElement_lt _ _ _ hlo
+  have h1 : ((fp.length : Int) - 1).toNat = fp.length - 1 := by omega
+  simp only [h1, curRank_last _ _ hn (gather_length_le m f fp p)] at hhi
+  have hsum : (meanParts m f fp p).1 = (gather m f fp p).sum := by
+    unfold meanParts; simp [List.sum_eq_foldl]
+  have hlen : (meanParts m f fp p).2 = (gather m f fp p).length := rfl
+  have hA := sum_ge_of_le _ lo (nthElement_zero_le _ _ hlo)
+  have hB := sum_le_of_le _ hi (nthElement_last_ge _ _ hhi)
+  rw [hsum, hlen]
+  have hq : (0 : ℚ) < ((gather m f fp p).length : ℚ) := by exact_mod_cast hn
+  refine ⟨hn, hA, hB, ?_, ?_⟩
+  · rw [le_div_iff₀ hq]; exact_mod_cast hA
+  · rw [div_le_iff₀ hq]; exact_mod_cast hB
+
+/-- **C07-R3' (rank 0 in `nearest` mode = flat grey erosion of C01).** For a signed, non-boolean dtype
+(`lo ≠ 0`, so that height 0 marks a member of a structuring element), an image whose samples at `p`
+lie in the dtype range, and a non-empty neighbourhood: `rank_filter(f, Bc, 0, mode='nearest')[p]` is the
+value the *specification* of C01 gives for the erosion of `f` by the flat structuring element with
+height 0 on the members of `Bc` (minimum over the members of `f[clamp(p + k)]`). For unsigned dtypes a
+0/1 `Bc` is not a flat element for `erode` (height 1 is subtracted), so the link does not apply. -/
+theorem C07_rank0_eq_flat_erosion (dt : DT) (hb : dt.isBool = false) (hlo : dt.lo ≠ 0) (f : Img Int)
+    (hs : ∀ d ∈ f.shape, 0 < d) (fp : List (List Int)) (hfp : fp ≠ []) (p : List Int)
+    (hrange : ∀ k ∈ fp, dt.lo ≤ f.getD (clampPos f.shape (addPos p k)) 0 ∧
+      f.getD (clampPos f.shape (addPos p k)) 0 ≤ dt.hi) :
+    rankAt .nearest f fp 0 p = some (C01.erodeSpecAt dt f (fp.map fun k => (k, 0)) p) := by
+  have hsamp := specSamples_nearest f fp p
+  have hne : specSamples .nearest f fp p ≠ [] := by
+    rw [hsamp]; simpa using hfp
+  obtain ⟨⟨lo, hlo1, hlo2, hlo3⟩, _⟩ := C07_rank_extremes .nearest f hs fp p hne
+  rw [hlo1]
+  congr 1
+  unfold C01.erodeSpecAt
+  have hfilt : (fp.map fun k => ((k, 0) : List Int × Int)).filter (C01.isMember dt) =
+      fp.map fun k => ((k, 0) : List Int × Int) := by
+    rw [List.filter_eq_self]
+    intro a ha
+    obtain ⟨k, _, rfl⟩ := List.mem_map.1 ha
+    simp [C01.isMember, hb, Ne.symm hlo]
+  rw [hfilt, List.foldl_map]
+  simp only [hb, Bool.false_eq_true, if_false, Int.sub_zero]
+  obtain ⟨h1, h2, h3⟩ := foldl_min_spec
+    (fun k => dt.clamp (f.getD (clampPos f.shape (addPos p k)) 0)) fp dt.hi
+  have hg : ∀ k ∈ fp, dt.clamp (f.getD (clampPos f.shape (addPos p k)) 0) =
+      f.getD (clampPos f.shape (addPos p k)) 0 := by
+    intro k hk
+    have := hrange k hk
+    unfold DT.clamp
+    omega
+  rw [hsamp] at hlo2 hlo3
+  obtain ⟨k0, hk0, hk0e⟩ := List.mem_map.1 hlo2
+  have hle : ∀ k ∈ fp, lo ≤ f.getD (clampPos f.shape (addPos p k)) 0 :=
+    fun k hk => hlo3 _ (List.mem_map.2 ⟨k, hk, rfl⟩)
+  have hv_le : fp.foldl (fun v k => min v (dt.clamp (f.getD (clampPos f.shape (addPos p k)) 0))) dt.hi ≤ lo := by
+    have := h1 k0 hk0
+    rw [hg k0 hk0, hk0e] at this
+    exact this
+  have hv_ge : lo ≤ fp.foldl (fun v k => min v (dt.clamp (f.getD (clampPos f.shape (addPos p k)) 0))) dt.hi := by
+    rcases h3 with h | ⟨k, hk, h⟩
+    · rw [h]
+      have := (hrange k0 hk0).2
+      rw [hk0e] at this
+      exact this
+    · rw [h, hg k hk]; exact hle k hk
+  omega
+
+/-- non-vacuity of round 2: the 3×3 cross has 5 members, `Bc.sum()//2 = 2`; on the 2×2 image in
+    reflect mode every pixel has all 5 samples, ranks 0 / 2 / 4 are min / median / max of the
+    samples, increasing, and the mean parts lie between; an even 2×2 neighbourhood gets rank 2 of 4. -/
+example :
+    let bc : Array Int := #[0, 1, 0, 1, 1, 1, 0, 1, 0]
+    let f : Img Int := { shape := [2, 2], data := #[7, 1, 5, 3] }
+    let fp := footprint [3, 3] bc
+    bc.size = shapeSize [3, 3] ∧ (∀ x ∈ bc.toList, x = 0 ∨ x = 1) ∧ medianRank bc = 2 ∧ fp.length = 5 ∧
+    specSamples .reflect f fp [0, 0] = [7, 7, 7, 1, 5] ∧
+    rankSpecAt .reflect f fp 0 [0, 0] = some 1 ∧ rankSpecAt .reflect f fp 2 [0, 0] = some 7 ∧
+    rankSpecAt .reflect f fp 4 [0, 0] = some 7 ∧ meanParts .reflect f fp [0, 0] = (27, 5) ∧
+    medianRank #[1, 1, 1, 1] = 2 := by
+  decide
+
+/-- the hypotheses of `C07_mean_between_min_max` are met on that image: `1 ≤ 27/5 ≤ 7` -/
+example :
+    let f : Img Int := { shape := [2, 2], data := #[7, 1, 5, 3] }
+    let fp := footprint [3, 3] #[0, 1, 0, 1, 1, 1, 0, 1, 0]
+    (1 : ℚ) ≤ ((meanParts .reflect f fp [0, 0]).1 : ℚ) / ((meanParts .reflect f fp [0, 0]).2 : ℚ) := by
+  intro f fp
+  have h0 : rankAt .reflect f fp 0 [0, 0] = some 1 := by
+    rw [C07_rank_eq_spec _ _ (by decide)]; decide
+  have h4 : rankAt .reflect f fp ((fp.length : Int) - 1) [0, 0] = some 7 := by
+    rw [C07_rank_eq_spec _ _ (by decide)]; decide
+  exact_mod_cast (C07_mean_between_min_max .reflect f fp [0, 0] 1 7 h0 h4).2.2.2.1
+
+/-- the hypotheses of `C07_rank0_eq_flat_erosion` are met (int8, 3×3 cross, corner pixel): both sides are 1 -/
+example :
+    let dt : DT := { lo := -128, hi := 127 }
+    let f : Img Int := { shape := [2, 2], data := #[7, 1, 5, 3] }
+    let fp := footprint [3, 3] #[0, 1, 0, 1, 1, 1, 0, 1, 0]
+    dt.isBool = false ∧ dt.lo ≠ 0 ∧ (∀ d ∈ f.shape, 0 < d) ∧ fp ≠ [] ∧
+    (∀ k ∈ fp, dt.lo ≤ f.getD (clampPos f.shape (addPos [0, 0] k)) 0 ∧
+      f.getD (clampPos f.shape (addPos [0, 0] k)) 0 ≤ dt.hi) ∧
+    C01.erodeSpecAt dt f (fp.map fun k => (k, 0)) [0, 0] = 1 ∧ rankSpecAt .nearest f fp 0 [0, 0] = some 1 := by
   decide
